@@ -80,7 +80,7 @@ def check_dynamic(ctx, rule="C02.T1"):
 
         def hook(args):
             seen.append(args)
-            return ["<cursor>", fc, "<length>"]
+            return [fde.Unknown("cursor"), fc, fde.Unknown("length")]  # nothing but the format code may decide
 
         def make(dec):
             seen.clear()
@@ -101,6 +101,8 @@ def check_dynamic(ctx, rule="C02.T1"):
 
     extra: dict = {}
     outcomes = {fc: evaluate(fc, []) for fc in range(64)}
+    # ... and a Dynamic restricted to one type: the same table, and again nothing but the format code decides
+    only_u1 = {fc for fc in range(64) if not evaluate(fc, [fde.ClsTok("U1")])[0].raised}
     known_extra = {c: sorted(v) for c, v in extra.items()}
     table = {codes[fc] for fc, (tr, _) in outcomes.items() if fc in codes and not tr.raised and tr.assigned.get("self.value") is not None}
     missing = [c for c in CONCRETE if c not in table]
@@ -122,10 +124,9 @@ def check_dynamic(ctx, rule="C02.T1"):
     ctx.ob(rule, q, ok, "the format code is read from the header at `start`" if ok else f"the format code is not read by one decode_item_header(data, start): {sorted(peeks)[:2]}", key="peek-header", where=f.where)
     refused = sorted(fc for fc, (tr, _) in outcomes.items() if tr.raised)
     want = sorted(fc for fc in range(64) if fc not in codes)
-    only_u1 = {fc for fc in range(64) if not evaluate(fc, [fde.ClsTok("U1")])[0].raised}
     ok = refused == want and only_u1 == {repo.const("U1", "format_code")} and not known_extra
     ctx.ob(rule, q, ok, "the only refusal is an unsupported or disallowed format code" if ok else
-           (f"Dynamic.decode also refuses depending on {list(known_extra)[:2]} (format codes {[oct(x) for x in list(known_extra.values())[0][:4]]}...): valid items of an allowed format are rejected (e.g. a byte length compared with an element count)" if known_extra else "") +
+           (f"whether Dynamic.decode accepts an item, and as what, also depends on {list(known_extra)[:2]} (format codes {[oct(x) for x in list(known_extra.values())[0][:4]]}...): valid items of an allowed format are rejected (e.g. a byte length compared with an element count)" if known_extra else "") +
            f"Dynamic.decode refuses format codes {[oct(x) for x in refused if x not in want]} of defined items / accepts undefined {[oct(x) for x in want if x not in refused]}; a Dynamic([U1]) accepts {sorted(oct(x) for x in only_u1)}: valid items of an allowed format are rejected or disallowed ones accepted", key="only-refusal", where=f.where)
     # the header reader itself refuses a code that differs from the receiving object's own `format_code` unless that is the
     # wildcard -1: for a Dynamic (and every data item built on it) it must stay the class constant of Base, whatever it holds
@@ -247,6 +248,9 @@ def check_revalidation(ctx):
     ctx.ob("C02.P1", f.qualname, ok, "a scalar is rejected exactly when x < _min or x > _max and stored otherwise" if ok else
            f"the scalar path of set() does not reject exactly `x < _min or x > _max`: refusing paths {[q.conds for q in rejecting]}, storing paths {[q.conds for q in storing]}: the boundary encodings (0xFF.., 0x80.., largest finite float) are refused or out-of-range values pass",
            key="predicate scalar", where=f.where)
+    from .c01 import check_range_tests_agree
+
+    check_range_tests_agree(ctx, "C02.P1")
     dec = repo.method("BaseNumber", "decode", inherited=False)
     ok = any(call_name(c) == "self.set" for c in calls_in(dec.node))
     ctx.ob("C02.P1", dec.qualname, ok, "decoded numbers are stored through the validating set()" if ok else "decode bypasses set()", where=dec.where)
@@ -298,6 +302,12 @@ def run(ctx):
     _items.check_header_decode(ctx, "C02.B2", "Base", "decode_item_header", "variables")
     _items.check_header_encode(ctx, "C02.B2", "Base", "encode_item_header", "format_code")  # re-encoding a decoded value gives the canonical header
     check_dynamic(ctx)
+    # "Dynamic([]) supports every table entry" also after a value was set: choosing the type for a Python value reads the
+    # allowed types and leaves them as they are (reference text shared with C03.P3)
+    from .. import report
+    from .c03 import check_match_type
+
+    report.share(ctx, "C02.T1", check_match_type)
     n = _items.check_numeric_table(ctx, "C02.T2", NUMERIC, VAR_ATTRS)
     ctx.floor("numeric classes", n, 10)
     check_revalidation(ctx)
